@@ -176,18 +176,19 @@ pub fn binary(fi: usize, a: u64, b: u64, l: &mut Local) -> Result<(), Viol> {
                 if got == 0x8000_0000 || got == 0 || gneg != (r < 0.0) {
                     return Err(Viol::wrong_s(format!("{}.sign", op()), &[a, b], format!("a real non-zero value with the sign of {:e}", r), hex(got)));
                 }
-            } else if x > 0.0 {
+            } else if x > 0.0 || (x < 0.0 && y.abs() >= 268_435_456.0) {
+                // (a negative base with |y| >= 2^28: every such P32E2 exponent is an even integer, so x^y = |x|^y)
                 // the true value over- or underflows (or the exponent is astronomically large): x^y is still a
                 // positive real for x > 0, so the answer must at least be a non-negative real — never NaR,
                 // never negative (magnitude and the crate's flush-to-zero are not judged out here)
                 l.eval();
-                l.label("powf_positive_base_far_outside(non-negative real only)");
+                l.label(if x > 0.0 { "powf_positive_base_far_outside(non-negative real only)" } else { "powf_negative_base_huge_even_exponent(non-negative real only)" });
                 let got = match guard(|| (f.call)(pa, pb).to_bits() as u64) {
                     Ok(g) => g,
-                    Err(m) => return Err(Viol::panic(op(), &[a, b], "a non-negative real (positive base)".into(), m)),
+                    Err(m) => return Err(Viol::panic(op(), &[a, b], "a non-negative real (positive base or even integer exponent)".into(), m)),
                 };
                 if got & 0x8000_0000 != 0 {
-                    return Err(Viol::wrong_s(format!("{}.sign", op()), &[a, b], "a non-negative real (x > 0, so x^y > 0)".into(), hex(got)));
+                    return Err(Viol::wrong_s(format!("{}.sign", op()), &[a, b], (if x > 0.0 { "a non-negative real (x > 0, so x^y > 0)" } else { "a non-negative real (y is an even integer, so x^y = |x|^y)" }).to_string(), hex(got)));
                 }
             }
         }
@@ -317,6 +318,26 @@ pub fn run(rep: &mut Report) {
         l.label("boundary_pair_in_domain");
         binary(2, xb, (enc(y) + off) as u64 & 0xffff_ffff, l)
     });
+    // powf with a negative base and a huge exponent: every P32E2 value of magnitude >= 2^28 is an even
+    // integer, so the answer is |x|^y — a non-negative real.  Seeded C15-r4-m1/m2 moved the integrality /
+    // parity tests onto saturating i64 conversions and fail exactly at y = 2^63 resp. for |y| > 2^63.
+    {
+        let bases: Vec<u64> = {
+            let mut v = vec![0xC000_0000u64, 0xB800_0000, 0xC800_0000, 0xB000_0000, 0x8000_0001, 0xFFFF_FFFF, 0xBFFF_FFFF, 0xC000_0001];
+            for i in 0..56u64 {
+                v.push(0x8000_0001 + (splitmix(i ^ 0xC15) % 0x7FFF_FFFE));
+            }
+            v
+        };
+        let nb = bases.len() as u64;
+        rep.lattice("powf: negative bases x exponents next to +-2^k, k = 28..=119 (offsets -2..=2 encodings): sign / NaR class", nb * 92 * 5 * 2, move |i, l| {
+            let (bi, r) = (i % nb, i / nb);
+            let (k, r) = (28 + (r % 92) as i32, r / 92);
+            let (off, neg) = ((r % 5) as i64 - 2, r / 5 == 1);
+            let yb = (enc(2f64.powi(k)) + off) as u64 & 0xffff_ffff;
+            binary(2, bases[bi as usize], if neg { yb.wrapping_neg() & 0xffff_ffff } else { yb }, l)
+        });
+    }
     for fi in 0..BINARY.len() {
         rep.generated(&format!("{}: generated pairs", BINARY[fi].name), tier.pick(3_000_000, 40_000_000), pair_inputs, move |&(a, b), l| binary(fi, a, b, l));
     }
